@@ -8,9 +8,13 @@ directions: writer Layout/FileBytes, total reader Read, declarative ValidDoc).
      checks the format laws in every state and prints each case with the verdict and contents
      the spec computes.  vh-datafile (an independent writer) builds the file, opens it with
      datafile::Reader (file.rs) and raw::Reader, calls everything and compares.
- (M) MapGen.tla: structured generator of map-shaped (always well-formed) datafiles sweeping
-     every word of every map item; vh-datafile calls every accessor of map::Reader and records
-     the calls; MapTrace.tla judges them (no panic/hang, every index handed out in range).
+ (M) Map.tla: the map format of doc/map.md (every accessor of map::Reader, every item struct of
+     map::format) as total operators, plus a typed writer and the law "read back exactly as stored".
+     MapGen.tla: well-formed maps of every item version (three base profiles and every single-choice
+     deviation) and every single-word corruption / truncation of their items; TLC checks the laws
+     and prints each case with the expected outcome and value of every call.  vh-datafile calls
+     every accessor of map::Reader and every item struct and compares; MapTrace.tla judges the
+     recorded calls (no panic/hang, every index handed out in range).
  (B) vh-datafile drive: seeded real-size files written with the repository's zlib compressor,
      truncation at every position, field fuzz, corrupt/oversized compressed blocks, random
      bytes; DatafileTrace.tla validates the recorded trace (alphabet {ok(content), error(kind)}).
@@ -170,14 +174,56 @@ def _run_A(ctx, bins, scratch, cfg, workers, timeout, label, result):
 def _run_M(ctx, bins, scratch, cfg, timeout, result):
     try:
         trace = os.path.join(ctx.workdir, "map-trace.ndjson")
+        workers = 4 if ctx.tier == "quick" else 6
+        cap = int(os.environ.get("C16_TLC_WORKERS", "0") or "0")
+        if cap:
+            workers = min(workers, cap)
         tres, rc, out = core.tlc_pipe("MapCases.tla", cfg,
                                       [bins + "/vh-datafile", "map-replay", os.path.join(scratch, "m"), trace],
-                                      cwd=CWD, workers=2, timeout=timeout, stack="64m", env=_jenv(ctx))
+                                      cwd=CWD, workers=workers, timeout=timeout, stack="64m", env=_jenv(ctx))
         if rc == 0 and os.path.exists(trace) and os.path.getsize(trace) > 0:
             _validate_chunks(ctx, "MapTrace.tla", trace, "map")
         result["M"] = (rc, out, trace, tres.wall_s)
     except Exception as e:  # noqa: BLE001
         result["M"] = e
+
+
+MAP_REQUIRED = (
+    ["%s:%s" % (f, o) for f in ("version", "info", "image", "group", "layer", "tiles", "game_layers", "string", "settings",
+                                "image_name", "layer_tiles_raw", "tele_layer_tiles_raw", "speedup_layer_tiles_raw",
+                                "switch_layer_tiles_raw", "tune_layer_tiles_raw") for o in ("ok", "err")]
+    + ["gl.%s:ok" % k for k in ("game", "front", "teleport", "speedup", "switch", "tune")]
+    + ["layer-kind:tilemap:%d" % k for k in (0, 1, 2, 4, 8, 16, 32)] + ["layer-kind:3", "layer-kind:10"]
+    + ["part:%s:%s" % (n, r) for n in ("InfoV1", "ImageV1", "ImageV2", "EnvelopeV1", "EnvelopeV2", "EnvelopeV1Legacy",
+                                        "GroupV1", "GroupV2", "GroupV3", "LayerV1TilemapV2", "LayerV1TilemapV3",
+                                        "LayerV1QuadsV1", "LayerV1QuadsV2", "LayerV1DdraceSoundsV1",
+                                        "LayerV1DdraceSoundsV2", "DdraceSoundV1") for r in ("some", "none", "short")]
+    + ["part:ExtraRace:some", "part:ExtraRace:none", "part:EnvpointV1:some", "part:EnvpointV1:none",
+       "part:EnvpointV2:some", "part:EnvpointV2:none", "part:InfoV2:some", "part:InfoV2:short", "part:LayerV1:short"])
+
+
+def _judge_map_mismatch(ctx, cls, m, case, n, label):
+    """One group of differences between what Map.tla computed for a generated map and what
+    map::Reader / map::format returned.  cls: 'wf' (the uncorrupted output of the spec's writer),
+    'valid' (corrupted, but still a well-formed map by Map!MapValid), 'other'."""
+    what, f = m.get("what"), m.get("f")
+    if what in ("not-called", "part-not-called"):
+        raise core.ToolError("map binding error: the harness did not make the expected call %s(%s)" % (f, m.get("a")))
+    sw = json.dumps(case.get("sw"))
+    if cls == "wf":
+        key = "map-wf-not-read-back:%s:%s" % (f, what)
+        msg = ("a well-formed map written from the typed abstract map is not read back as stored: %s(%s) expected %s, got %s "
+               "[%d differences, %s]" % (f, m.get("a"), json.dumps(m.get("exp"))[:200], json.dumps(m.get("act"))[:200], n, label))
+        ctx.report(key, msg, case)
+    elif cls == "valid" and what in ("val", "part-val", "redundant"):
+        key = "map-content-differs:%s:%s" % (f, what)
+        msg = ("a map that is well-formed by the document (corruption %s keeps it valid) is returned with other content: "
+               "%s(%s) expected %s, got %s [%d differences, %s]" % (
+                   sw, f, m.get("a"), json.dumps(m.get("exp"))[:200], json.dumps(m.get("act"))[:200], n, label))
+        ctx.report(key, msg, case)
+    else:
+        ctx.report_drift("map %s(%s) after corruption %s: Map.tla says %s, the reader %s (%s) [%d cases]" % (
+            f, m.get("a"), sw, json.dumps(m.get("exp"))[:80], json.dumps(m.get("act"))[:80], what, n))
 
 
 def _validate_chunks(ctx, module, trace, what, max_rounds=6, timeout=900):
@@ -552,15 +598,24 @@ def _run(ctx, bins, scratch, quick):
     for o in objs:
         if o.get("kind") == "summary":
             msum = o
+        elif o.get("kind") == "bad-line":
+            raise core.ToolError("map replay: unparsable case line from TLC")
+        elif o.get("kind") == "map-mismatch":
+            cls = o["group"].split("|")[0]
+            _judge_map_mismatch(ctx, cls, o["first"]["m"], o["first"]["case"], o["n"], "Map_%s.cfg" % ctx.tier)
+    if msum and rc == 0:
+        missing = [k for k in MAP_REQUIRED if not msum.get("exp_seen", {}).get(k)]
+        if missing:
+            raise core.ToolError("vacuous map enumeration: no expected call for %s" % missing)
+        ctx.coverage["map_expected_outcomes"] = msum.get("exp_seen")
+        ctx.coverage["map_cases_by_kind"] = msum.get("by_kind")
     map_cases = 0
     if msum and os.path.exists(mtrace):
         map_cases = msum["cases"]
-        ctx.add_run("map replay", cases=msum["cases"], accessor_calls=msum["calls"], panics=msum["panics"],
-                    distinct_outcome_shapes=msum["distinct_outcome_shapes"], wall_s=round(wall, 1))
-        with open(mtrace) as fh:
-            first = json.loads(fh.readline())
-        ctx.sample({"direction": "map", "sweep": first.get("sw"), "calls": [
-            "%s(%s)=%s" % (c["f"], c["a"], c["out"]) for c in first.get("calls", [])[:14]]})
+        ctx.add_run("map replay", cases=msum["cases"], accessor_calls=msum["calls"], item_struct_calls=msum["parts"],
+                    well_formed=msum["wf"], valid_by_spec=msum["valid"], differences=msum["mismatches"],
+                    panics=msum["panics"], distinct_outcome_shapes=msum["distinct_outcome_shapes"], wall_s=round(wall, 1))
+        ctx.sample({"direction": "map", "case": msum.get("sample")})
 
     if not quick:
         _binding_selftest(ctx, b_events, mtrace if msum else None)
@@ -596,7 +651,7 @@ def _run(ctx, bins, scratch, quick):
         "version 4 blocks: the spec defines stored deflate blocks exactly and treats the repository's compressor as an uninterpreted injective function (dictionary recorded by the writer); any other byte string as a compressed block is 'unspec' (any non-panicking answer allowed)",
         "files are below 2 GiB; allocation of the sizes a header declares (below 2 GiB) succeeds (virtual memory, never touched)",
         "out-of-bounds reads that do not panic are not observable here (no sanitizer run)",
-        "map layer: no specification beyond index validity; TLC is a structured generator and the claim is 'total on everything generated'",
+        "map layer: Map.tla specifies every accessor and item struct; the claim is exhaustive for the generated profiles (three base maps, every single-choice deviation) and their single-field corruptions with the listed values; tile layers of tilemap version 4 (0.7 skip compression) are not expanded by the reader and are outside the well-formed half",
     ]
 
 
@@ -624,6 +679,10 @@ def replay(ctx, path):
                 fh.write(json.dumps(ev[0]["event"]) + "\n")
             _validate_chunks(ctx, "DatafileTrace.tla", t, "datafile", max_rounds=1)
         elif mev:
+            cls = "wf" if case.get("wf") else ("valid" if case.get("valid") else "other")
+            for o in objs:
+                if o.get("kind") == "map-mismatch-one":
+                    _judge_map_mismatch(ctx, cls, o["m"], case, 1, "replay")
             t = os.path.join(ctx.workdir, "replay-map.ndjson")
             with open(t, "w") as fh:
                 fh.write(json.dumps(mev[0]["event"]) + "\n")
